@@ -477,7 +477,12 @@ func (w *rrWorld) verifyQuiescent(where string) {
 
 func drawWeightShape(rt *rapid.T, n int) []int {
 	ws := make([]int, n)
-	switch rapid.IntRange(0, 6).Draw(rt, "shape") {
+	switch rapid.IntRange(0, 7).Draw(rt, "shape") {
+	case 7: // very large weights with a very large common factor (the rotation is still short)
+		g := rapid.SampledFrom([]int{1 << 20, 1 << 31, 1 << 32, 1<<32 + 3, 3 << 32, 1 << 40, 1 << 53}).Draw(rt, "huge-factor")
+		for i := range ws {
+			ws[i] = g * rapid.IntRange(0, 6).Draw(rt, "mult")
+		}
 	case 0: // all equal
 		v := rapid.IntRange(1, 50).Draw(rt, "equal")
 		for i := range ws {
